@@ -58,11 +58,11 @@ Proof. vm_compute. reflexivity. Qed.
 (* soundness: whatever it returns is the instance of an admissible architecture of the graph semantics (Adm), reached from a
    vector of the neighbourhood of the request whose fixed entries are the requested ones; the corrected vector lists, per
    choice, the index taken from that vector, or -1 when the choice was not met or was resolved automatically *)
-Theorem C14_fast_decode_sound : forall chk g vars x fixed imp inst,
+Theorem C14_fast_decode_sound : forall chk g ovars vars x fixed imp inst,
   requested_ok (nvars_of vars x fixed) ->
-  fast_decode chk g vars x fixed = Some (Some (imp, inst)) ->
+  fast_decode chk g ovars vars x fixed = Some (Some (imp, inst)) ->
   exists y s taken,
-    in_space (nvars_of vars x fixed) y /\ settled g vars s /\ (vars_wf g vars -> Adm g s) /\ inst_nodes g s = Some inst /\
+    in_space (nvars_of vars x fixed) y /\ settled g ovars s /\ (vars_wf g ovars -> Adm g s) /\ inst_nodes g s = Some inst /\
     imp = map (fun v => zlookup taken (fst v)) vars /\
     (forall c i, In (c, i) taken -> i = req_of vars y c) /\
     (chk = true -> respects_fixed g vars y fixed taken inst = true).
@@ -70,22 +70,22 @@ Proof. exact fast_decode_sound. Qed.
 Print Assumptions C14_fast_decode_sound.
 
 (* a vector that is already valid is returned unchanged *)
-Theorem C14_fast_decode_identity : forall chk g vars x fixed r,
+Theorem C14_fast_decode_identity : forall chk g ovars vars x fixed r,
   length x = length vars -> length fixed = length vars ->
-  try_vector chk g vars fixed x = Some (Some r) ->
-  fast_decode chk g vars x fixed = Some (Some r).
+  try_vector chk g ovars vars fixed x = Some (Some r) ->
+  fast_decode chk g ovars vars x fixed = Some (Some r).
 Proof. exact fast_decode_identity. Qed.
 Print Assumptions C14_fast_decode_identity.
 
 (* a greedy application that succeeds is an admissible architecture *)
 Theorem C14_greedy_application_admissible : forall g vars x fuel s taken,
-  vars_wf g vars -> greedy g vars x fuel [] [] = Some (TOk s taken) -> Adm g s.
+  vars_wf g vars -> greedy g vars x fuel [] [] [] = Some (TOk s taken) -> Adm g s.
 Proof. exact greedy_adm. Qed.
 Print Assumptions C14_greedy_application_admissible.
 
 Example C14_ex_fast_decode :
   vars_wf g_f20 vars_f20 /\
-  fast_decode true g_f20 vars_f20 [1; 0]%Z [false; false] = Some (Some ([1; -1]%Z, [0; 1; 4; 3; 6]%N)).
+  fast_decode true g_f20 vars_f20 vars_f20 [1; 0]%Z [false; false] = Some (Some ([1; -1]%Z, [0; 1; 4; 3; 6]%N)).
 Proof.
   split; [|vm_compute; reflexivity]. split.
   - intros v [<-|[<-|[]]]; split; try reflexivity; intros o Ho; vm_compute; vm_compute in Ho; tauto.
